@@ -690,6 +690,9 @@ class Library:
                 buf = I.mk([I.copy_val(e) for _ in range(n)], 'buf')
             else:
                 buf = I.mk([e] * n, 'buf')
+                m_ = re.match(r'^std::vec::from_elem::<(u8|u16|u32|u64|usize|bool)>$', name)
+                if m_:
+                    buf.ew = parse_type(m_.group(1)).bits
             return I.mk([buf, n], 'Vec')
 
         def seq_len(items):
@@ -988,6 +991,7 @@ class Library:
         libmore.register(self)
         libmore.register_cells(self)
         libmore.register_ints(self)
+        libmore.register_cmp(self)
 
     def apply_ctor_or_fn(self, fr, f, args):
         I = self.I
